@@ -41,6 +41,9 @@ inductive Exn where
 def Exn.isLookupError : Exn → Bool
   | .lookup | .key | .encodingLookup => true
   | _ => false
+def Exn.isKeyError : Exn → Bool
+  | .key => true
+  | _ => false
 def Exn.isEncodingLookupError : Exn → Bool
   | .encodingLookup => true
   | _ => false
